@@ -119,7 +119,7 @@ func H_C01_decode_opts() {
 		vC01(ts, o, false)
 		return
 	}
-	suffix := []string{"", "-c"}[vChoose(2)]
+	suffix := []string{"", "-c", "-c-d"}[vChoose(3)] // names with one and with several hyphens
 	k1 := &vXElem{name: vNondetString(1, 1, "aA"), items: []vXItem{{kind: 1, text: " x"}}}
 	k2 := &vXElem{name: vNondetString(1, 1, "aA") + suffix}
 	root := &vXElem{name: "r" + suffix,
